@@ -130,6 +130,18 @@ CHECKS = {
          "adds second crashes inside the resumed run and resumes with --threads 2. Crash points before .params is saved are reported as out of scope.",
          "Trusted: kill model (process death, OS-level data kept, no power-loss reordering); sqlite writes of gffutils are one mutation.",
          "DESIGN.md §3 C07"),
+ "C01": ("exploration",
+         "bounded-exhaustive, deviation-bounded enumeration: annotations from an exon-lattice grammar x every read derivable from an isoform by <=1/2 deviations x 4 presets, plus negative reads; each (annotation, preset) is a complete pipeline run; independent structural-compatibility reference model",
+         "Annotations: 1-2 genes, <=3 isoforms over 4/5 exon slots (exon skipping, alternative first/last exons and boundaries, 3-5 bp alternative "
+         "splice sites, mono-exonic isoform, antisense/neighbour/other-chromosome second gene), both strands. Reads: exact copy of an isoform plus "
+         "every combination of <=1 (quick) / <=2 (thorough) deviations out of 5'/3' truncation to any exon at two offsets, jitter of any splice "
+         "site by +-1/+-delta, 3-bp insertion/deletion in any exon, polyA tail, reverse flag; negative reads (skipped exon, novel exon, retained "
+         "intron, site moved 90 bp, end extended 450 bp) kept only when far from every isoform. For every read: assignment type consistent, "
+         "reported isoforms within the compatible set, T reported for untruncated full-length reads, unique when only T is compatible; negatives "
+         "never consistent. Thorough: 2.7 million positive reads.",
+         "Trusted: the compatibility model in props/c01.py (validated by its own agreement with the code on all cases). Lattice keeps every "
+         "boundary out of the bands between delta and the heuristic thresholds (see evidence.assumptions).",
+         "DESIGN.md §3 C01"),
 }
 
 NOT_YET = {}
